@@ -17,6 +17,9 @@ def run_impl(case):
 def run_monitor(case):
     rnd = lib.rng_for(case["seed"], case["idx"], 1313)
     n = rnd.choice([0, 1, 1, 2, 3, 4, 5, 6, 9])
+    xs = lib.rng_for(case["seed"], case["idx"], 1333).random()
+    if xs < 0.08:
+        n = (10, 16, 17, 32, 33, 40, 65, 70)[int(xs / 0.08 * 8)]      # maps beyond one byte / one word / 64 sources
     modes = [rnd.choice(["level", "rise", "fall"]) for _ in range(n)]
     em = event.EventMap()
     srcs = [event.Source(trigger=m) for m in modes]
